@@ -1,7 +1,7 @@
 LIBS = ["libavoid"]
 HARNESS = "harness/c06.cpp"
 DRIVER_MODE = "c06"
-LEAN_MODULES = ["AdaptaVerif.Props.C06", "AdaptaVerif.Props.C06Tie"]
+LEAN_MODULES = ["AdaptaVerif.Props.C06", "AdaptaVerif.Props.C06Tie", "AdaptaVerif.Props.C06Reroute"]
 LEVEL = "translation_validation"
 LEVEL_TEXT = ("Two parts. (1) PROOF, for all legal histories of any length (Lean 4, no sorry, axioms propext / "
               "Classical.choice / Quot.sound): the router's transaction queue - de-duplication rules of addShape / "
@@ -18,8 +18,40 @@ LEVEL_TEXT = ("Two parts. (1) PROOF, for all legal histories of any length (Lean
               "(Euclidean length via checked rational sqrt enclosures of width 1e-9, or Manhattan length, plus "
               "segmentPenalty x bends) is compared to 1e-6 with the route of a FRESH router built on the same final "
               "scene with the same options, a processTransaction() with an empty queue must leave routes "
-              "bit-identical, and dumped visibility / invisibility graphs are audited for staleness.")
-LEVEL_NOTE = ("Proved about the MODEL of the queue only; the C++ is connected to it by sampled, exact per-call "
+              "bit-identical, and dumped visibility / invisibility graphs are audited for staleness. "
+              "(3) THE REROUTE DECISION (Model/Reroute.lean, Props/C06Reroute.lean): which connectors a transaction "
+              "looks at again is modelled as coded - per connector m_route / m_needs_reroute_flag / m_false_path / the "
+              "delegate's alert bool, globally the registrations of connectors on visibility edges (EdgeInf::addConn); "
+              "per processed transaction removeFromGraph alerts for removed / moved obstacles, the could-be-shorter test "
+              "of markPolylineConnectorsNeedingReroutingForDeletedObstacle (exact formula, sums of square roots compared "
+              "through certified enclosures), newBlockingShape on the new routing polygons, end-point updates, delivery "
+              "of the alerts, generatePath re-registering the new path; orthogonal connectors are always rerouted. "
+              "Proved for ALL states / transactions / polygons: a connector that is NOT flagged has no registered edge at "
+              "a removed / moved obstacle, none reported blocked by an added / moved shape, unchanged ends "
+              "(skip_sound_registration), hence for strictly convex shapes in general position its old route is valid "
+              "for the new scene (skip_sound_leg, skip_sound_route_valid, with the invariant covered_after_routing / "
+              "covered_preserved); flags stick (flag_persists, endpoint_change_flags, orthogonal_always_rerouted); no-op "
+              "(noop_flags_nothing, settings_only_transaction_keeps_flags); for removal: when start and end of the route "
+              "lie on the same side of a side's line the as-coded point minimises the detour over that side for every "
+              "norm-like length over any ordered field (removal_estimate_min_horizontal/_vertical) and the test flags "
+              "whenever a path through a point of that side would be shorter (removal_flag_complete_same_side); without "
+              "that condition the estimate is only a heuristic - removal_estimate_incomplete_witness is a closed scene "
+              "in which a strictly shorter obstacle-free route opens and nothing is flagged (replayed against the C++: "
+              "harness --only 1000002, a genuine defect w.r.t. the property text); estLess_sound: the driver's three-valued "
+              "comparison never contradicts an exact one. TIE per processed transaction of every history: the model's "
+              "rerouted set = ConnRef::needsRepaint() exactly; with the guarded hook (ADAPTAGRAMS_VERIF_REROUTE_HOOK) also "
+              "m_needs_reroute_flag, m_false_path, m_route_dist (within 1e-9 of the route length) and "
+              "m_static_orthogonal_graph_invalidated at the start of rerouteAndCallbackConnectors, and the same members "
+              "after the transaction; Obstacle::routingPolygon() of every obstacle is tied to the model's geometry.")
+LEVEL_NOTE = ("Reroute model: the new routes themselves are inputs (A* is not modelled); a could-be-shorter comparison "
+              "closer than 1e-9 is not compared (counted reroute.too-close-to-call); the rotated (non axis-parallel side) "
+              "branch of the estimate (atan2/cos/sin) is not modelled - obstacles are rectangles; `new JunctionRef` with "
+              "transactions off runs two transactions (pin registration, then the add): the harness flushes first so the "
+              "first has nothing to do, otherwise the comparison is switched off for the rest of the history (counted "
+              "reroute.model-lost-track); a processTransaction() that runs only because a routing parameter was set is "
+              "modelled as a transaction with an empty action list; a generatePath that finds no path leaves the flag up: "
+              "visible only with the hook (counted reroute.path-not-found, the model follows). "
+              "Proved about the MODEL of the queue only; the C++ is connected to it by sampled, exact per-call "
               "correspondence (polygon points, active flag = membership in Router::m_obstacles, junction positions, "
               "connector end vertices). Router::actionList is private, so the queue itself (firstMove flag, order "
               "before the sort) is not observed - only its effect on the scene. The incremental visibility-graph "
